@@ -1,7 +1,7 @@
 #!/venv/bin/python
 """Cross matrix: every seeded break (seeded/<id>-<n>/patch.diff) x every registered check (quick tier), on scratch copies of /repo.
 
-usage: tools/matrix.py [--props C01,C02,...] [--seeds C03-2,...] [--out seeded/MATRIX.json]
+usage: tools/matrix.py [--props C01,C02,...] [--own-plus C10,C11] [--seeds C03-2,...] [--only-missing] [--out seeded/MATRIX.json]
 Writes a JSON {seeded id: {property: "caught" | "missed" | "inconclusive" | "error"}} and prints a table.  A check counts as having caught a
 patch only if it exits 1 and prints a VIOLATION line.
 """
@@ -25,7 +25,13 @@ def main():
         seeds = [s for s in seeds if s in opts["--seeds"].split(",")]
     out = Path(opts.get("--out", VERIF / "seeded" / "MATRIX.json"))
     res = json.loads(out.read_text()) if out.exists() else {}
+    own_plus = opts.get("--own-plus")
+    all_props = props
     for sd in seeds:
+        if own_plus is not None:
+            # the check of the property the change was written for, plus the given general checks
+            meta = json.loads((VERIF / "seeded" / sd / "meta.json").read_text())
+            props = [meta["property"]] + [p for p in own_plus.split(",") if p and p != meta["property"]]
         if "--only-missing" in a and sd in res and all(p in res[sd] for p in props):
             continue
         d = Path(tempfile.mkdtemp(prefix="cfdp-mx-", dir="/tmp"))
